@@ -1,2 +1,4 @@
 import Props.C13
 import Props.C12
+import Props.C09
+import Props.C10
